@@ -409,6 +409,19 @@ def run_property(prop, tier='quick', tree=None, quiet=False):
                     continue
                 ctx.ob('API-COMPAT', rel, 'third-party calls in this module exist with these keywords and this meaning in the installed numpy / pandas / scipy (%d calls resolved)' % stats['calls_resolved'],
                        not issues, '; '.join(i.what for i in issues)[:400], node=issues[0].node if issues else None, file=rel, key='api generic ' + rel)
+            # ... and for state that outlives a call: module-level arrays / containers written in place inside functions, class-level mutable defaults mutated through self
+            from . import lints as _lints
+            for rel in sorted(ctx.tree.consulted):
+                if not rel.endswith('.py'):
+                    continue
+                try:
+                    m_ = ctx.mod(rel)
+                except AnalysisError:
+                    continue
+                hits = [h for h in _lints.module_state_writes(m_) if h[2] not in _lints.DOCUMENTED_MODULE_STATE] + _lints.class_state_writes(m_)
+                ctx.ob('SHARED-STATE', rel, 'no function writes in place into a module-level array / container or into a class-level mutable default (what one call, or one object, leaves behind would be seen by the next)',
+                       not hits, '; '.join('line %d: %s %s is %s' % (st_.lineno, kind_, g_, how_) for _f, st_, g_, how_, kind_ in [(h + ('module-level',))[:5] if len(h) == 4 else h for h in hits][:3]),
+                       node=hits[0][1] if hits else None, file=rel, key='shared state ' + rel)
             if err is not None:
                 raise err
         if not ctx.obs:
